@@ -47,10 +47,12 @@ class _ExcLog(logging.Handler):
         if record.exc_info:
             name = record.exc_info[0].__name__ if record.exc_info[0] else "exc"
             r = _TH.get(record.thread)
+            # time-stamped: what is logged after the client has closed its socket is caused by the
+            # disconnect (BrokenPipe / reset while answering), not by the bytes the client sent
             if r is None:
-                _STRAY.append(name)
+                _STRAY.append((name, time.monotonic()))
             else:
-                r["exc"].append(name)
+                r["exc"].append((name, time.monotonic()))
 
 
 class RecHandler(S.HttpRequestHandler):
@@ -221,7 +223,7 @@ def classify_bytes(raw, closed, method):
 
 
 def exchange(port, data, shutdown, timeout):
-    """-> (raw bytes, closed?, client port)"""
+    """-> (raw bytes, closed?, client port, monotonic time just before the client closed its socket)"""
     s = socket.socket(socket.AF_INET6, socket.SOCK_STREAM)
     s.settimeout(timeout)
     chunks = []
@@ -249,8 +251,9 @@ def exchange(port, data, shutdown, timeout):
                 break
             chunks.append(d)
     finally:
+        t_close = time.monotonic()
         s.close()
-    return b"".join(chunks), closed, me
+    return b"".join(chunks), closed, me, t_close
 
 
 # ----------------------------------------------------------------------------- cases
@@ -411,7 +414,7 @@ def first_token(data):
 
 
 def probe(rig):
-    raw, closed, me = exchange(rig.port, b"GET /rec/probe HTTP/1.0\r\n\r\n", False, 3.0)
+    raw, closed, me, _t = exchange(rig.port, b"GET /rec/probe HTTP/1.0\r\n\r\n", False, 3.0)
     _DONE.pop(me, None)
     return closed and raw.startswith(b"HTTP/1.0 200 ") and raw.endswith(b"\r\n\r\nrec")
 
@@ -422,7 +425,7 @@ def run_batch(rig, cases, stats, failing):
     waits = [unsx(o)[0][0] == [4] for o in pre]
     obs, recs = [], []
     for (label, data, sd), w in zip(cases, waits):
-        raw, closed, me = exchange(rig.port, data, sd, 0.15 if w else 2.5)
+        raw, closed, me, t_close = exchange(rig.port, data, sd, 0.15 if w else 2.5)
         rec = None
         for _ in range(100 if closed else 1):
             with _lock:
@@ -431,7 +434,9 @@ def run_batch(rig, cases, stats, failing):
                 break
             time.sleep(0.003)
         o = classify_bytes(raw, closed, first_token(data))
-        internal = bool(rec and rec["exc"]) or bool(_STRAY)
+        # the server closed first (closed=True): everything it logged counts; otherwise only what it
+        # logged before the client went away
+        internal = any(closed or t < t_close for (_n, t) in ((rec["exc"] if rec else []) + list(_STRAY)))
         del _STRAY[:]
         obs.append([o, internal])
         recs.append(rec)
